@@ -196,10 +196,47 @@ def gen_cam_lines(rng, two):
     return cams
 
 
+def avgswitch_scenario(rng):
+    """kind "avgswitch": frame averaging is switched off (or on, or to another window) by acquire_configure while the acquisition is
+    running, same devices: the source changes from the filter's queue to the sink's queue (or back) under the handshake
+    await_filter_reset.  Such runs are outside C04/C06 (configure while running: known findings of C08); what is judged is the
+    single-writer discipline of the queues (C02's precondition at the runtime level)."""
+    cams = gen_cam_lines(rng, False)
+    c = cams[0]
+    fs = frame_size(c["w"], c["h"], 4)
+    ring = fs * rng.choice([3, 4, 6, 8]) + 8
+    prog = ["ring %d" % ring, "filtring %d" % ring, "seed %d" % rng.randint(1, 1 << 30)]
+    if rng.random() < 0.3:
+        prog.append("pct %d" % rng.randint(1, 3))
+    c["trig"] = 0
+    c["pace"] = rng.choice([0, 1, 2, 3])
+    prog.append("cam 0 w=%d h=%d type=%d trig=0 pace=%d" % (c["w"], c["h"], c["t"], c["pace"]))
+    if rng.random() < 0.5:
+        prog.append("stopace 0 %d" % rng.choice([1, 2, 5]))
+    prog.append("init")
+    n = rng.choice([12, 20, 40, 1 << 40])
+    avg = rng.choice([2, 2, 3, 4])
+    prog.append("cfg 0 cam=A sto=A n=%d avg=%d delay=0" % (n, avg))
+    prog.append("configure")
+    prog.append("start")
+    for _ in range(rng.randint(1, 3)):
+        prog.append("yield %d" % rng.randint(1, 60))
+        avg = rng.choice([0, 0, 0, 2, 3]) if avg else rng.choice([2, 3])
+        prog.append("cfg 0 cam=A sto=A n=%d avg=%d delay=0" % (n, avg))
+        prog.append("configure")
+    prog.append("yield %d" % rng.randint(1, 80))
+    prog.append("abort")
+    prog.append("state")
+    prog.append("shutdown")
+    return prog, dict(kind="avgswitch", cams=cams, ring=ring, streams=[0], acqs=[])
+
+
 def scenario(rng, kind):
-    """Returns (program lines, meta).  kind in basic | monitor | abort | fault | api."""
+    """Returns (program lines, meta).  kind in basic | monitor | abort | fault | api | avg | avgswitch."""
     if kind == "api":
         return api_scenario(rng)
+    if kind == "avgswitch":
+        return avgswitch_scenario(rng)
     two = rng.random() < 0.3
     cams = gen_cam_lines(rng, two)
     streams = [0, 1] if two else [0]
@@ -219,7 +256,7 @@ def scenario(rng, kind):
     prog.append("init")
     if kind in ("basic", "monitor", "abort") and not trig and rng.random() < 0.12:
         # a camera whose frame call sometimes times out: Device_Ok with zero bytes ("no frame yet"); the runtime cancels the write and
-        # asks again -- such polls are not frames (outside the model: judged by the oracle only)
+        # asks again -- such polls are not frames (model event DGetEmpty)
         for idx in cams:
             if rng.random() < 0.8:
                 prog.append("camempty %d %d" % (idx, rng.choice([2, 3, 4, 7])))
@@ -748,6 +785,9 @@ def oracle(prog, lines, meta):
                     acq.sto.extend(parse_frames(l))
                 elif ev == "stop":
                     acq.sto_stopped = True
+        elif l.startswith("V s") and "two-writers" in l:
+            add("C02", "two-writers-on-one-queue", "two threads hold a write mapping of the same queue at once (the channel has one write cursor: both are "
+                "handed the same bytes, and the first unmap commits the other's unfinished region): " + l[:160])
         elif l.startswith("R s") and len(w) > 4 and w[2] == "sink.in" and w[3] == "mon" and w[4] == "rmap":
             s = int(w[1][1])
             if not mon_registered[s]:
@@ -927,8 +967,6 @@ def shape_code(w, h, t, sz):
 def in_model_scope(prog):
     """Grammar G1 of the Coq model: averaging off; the two streams never use the same device at the same time (any stream may
     use either device pair, or an unopenable device); configure / start only between acquisitions (checked on the log by to_events)."""
-    if any(l.startswith("camempty") for l in prog):
-        return False, "camera frame calls that return no frame (not in the model)"
     cur = {0: (None, None), 1: (None, None)}
     for l in prog:
         w = l.split()
@@ -971,6 +1009,7 @@ def to_events(prog, lines):
     IDX = {"A": 0, "B": 1, "Bad": 2}
 
     cur_cam = {}         # stream -> index of the camera it last configured successfully (A / B)
+    skip_drop = {}       # stream -> the source's next (empty) unmap belongs to a frame call that returned no frame
     unarmed = set()      # (kind, instance) of open devices that failed (frame call, append, start) and were not configured since
     open_devs = set()
 
@@ -1136,7 +1175,12 @@ def to_events(prog, lines):
             elif op == "trigger":
                 emit("S %d %s trigger %d" % (s, a, inst), i)
             elif op == "get_frame":
-                if w[3] == "ok":
+                if w[3] == "EMPTY":
+                    # no frame: the source cancels the write (abort_write) and unmaps nothing -- the "commit ... DROPPED" line that
+                    # follows on this stream is that empty unmap, not a refused commit; neither changes the queue
+                    emit("S %d %s getempty %d" % (s, a, inst), i)
+                    skip_drop[s] = True
+                elif w[3] == "ok":
                     hw = int(w[4].split("=")[1])
                     tag = gtag(idx, int(w[5].split("=")[1]))
                     c = cams[idx]
@@ -1156,6 +1200,10 @@ def to_events(prog, lines):
                 if w[2] == "commit":
                     if w[3] != "sink.in":
                         continue
+                    if skip_drop.get(s) and a == "src":
+                        skip_drop[s] = False
+                        if w[4] != "ok":
+                            continue
                     f = dict(x.split("=") for x in w[5:])
                     c = cams[camidx(s)]
                     # the committed frame's identity: tag of the camera's current run
@@ -1267,6 +1315,8 @@ def event_to_coq(line):
         e = "DStoStart %s %s" % (r[0], B[r[1]])
     elif op == "camstart":
         e = "DCamStart %s %s %s" % (r[0], B[r[1]], r[2])
+    elif op == "getempty":
+        e = "DGetEmpty %s" % r[0]
     elif op == "getframe":
         e = "DGetFrame %s (Some (%s, %s, %s))" % (r[0], r[2], r[3], r[4]) if r[1] == "ok" else "DGetFrame %s None" % r[0]
     elif op == "append":
